@@ -13,7 +13,7 @@ from __future__ import annotations
 from contextlib import contextmanager
 from dataclasses import dataclass, field
 from enum import Enum
-from typing import Optional
+from typing import Callable, Optional
 
 from vyper.codegen_venom.buffer import Buffer, Ptr
 from vyper.codegen_venom.value import VyperValue
@@ -95,6 +95,11 @@ class VenomCodegenContext:
     # Reserves memory at position 0 for immutables staging;
     # used by deploy epilogue to copy staging area into bytecode.
     immutables_alloca: Optional[IRVariable] = None
+
+    # Set while lowering the body of `__init__`: emits the deploy epilogue
+    # (install runtime code + immutables). A `return` statement inside the
+    # constructor must finish the deployment, not just halt.
+    ctor_epilogue: Optional[Callable[[], None]] = None
 
     def new_variable(self, name: str, typ: VyperType, mutable: bool = True) -> LocalVariable:
         """Allocate memory for a named variable, register it, return the variable."""
